@@ -59,11 +59,18 @@ func devMain(args []string) {
 	fmt.Printf("loaded in %.1fs: %d contracts, %d spec functions, %d lemmas\n", time.Since(t0).Seconds(), len(e.specs.Funcs), len(e.specs.Spec), len(e.specs.Lemmas))
 	os.MkdirAll(*keep, 0o755)
 	var keys []string
+	if strings.HasPrefix(sub, "lemma:") {
+		sub = strings.TrimPrefix(sub, "lemma:")
+		*lemmas = true
+		keys = nil
+		goto lemmasOnly
+	}
 	for k := range e.specs.Funcs {
 		if strings.Contains(k, sub) {
 			keys = append(keys, k)
 		}
 	}
+lemmasOnly:
 	sort.Strings(keys)
 	var obs []*Oblig
 	var fcs []*FnCtx
